@@ -51,6 +51,19 @@ theorem C05_alloc_ids (s : IdState α) (a : α) :
     (s.alloc a).2 = s.next ∧ (s.alloc a).1.next = s.next + 1 ∧
     (s.allocVirtual a).2 = s.next ∧ (s.allocVirtual a).1.next = s.next + 2 := ⟨rfl, rfl, rfl, rfl⟩
 
+/-- the tie between the emitter model and the state machine above: every id the MATLAB emitter (`Model/Matlab/MFiles.lean`) prints into
+    a `.m` file is the one `IdState.alloc` hands out on the emitter's current id state, and the emitter's state advances by exactly that
+    allocation (nothing else of the state changes) — so the history of the emitter's id state is an allocation history in the sense of
+    `C05_dispatch_table_is_call_sites` -/
+theorem C05_emitter_allocates_through_the_state_machine (ns : String) (target : WrapModel.Matlab.Target) (kind : String)
+    (extra : WrapModel.Matlab.Extra) (fname : Option String) (s : WrapModel.Matlab.St) :
+    (WrapModel.Matlab.allocId ns target kind extra fname).run s =
+      .ok ((s.ids.alloc (WrapModel.Matlab.mkPayload ns target kind extra fname)).2,
+           { s with ids := (s.ids.alloc (WrapModel.Matlab.mkPayload ns target kind extra fname)).1 }) ∧
+    (WrapModel.Matlab.allocVirtualId ns target kind extra).run s =
+      .ok ((s.ids.allocVirtual (WrapModel.Matlab.mkPayload ns target kind extra none)).2,
+           { s with ids := (s.ids.allocVirtual (WrapModel.Matlab.mkPayload ns target kind extra none)).1 }) := ⟨rfl, rfl⟩
+
 /-- non-vacuity: a non-virtual class with one method, then a virtual class with one constructor -/
 example :
     sites 0 [Op.plain "A_collector", .plain "A_ctor", .plain "A_f", .virt "B_collector", .plain "B_ctor"] =
